@@ -672,10 +672,27 @@ impl Prop for C07 {
             std::env::remove_var(C07_ENV);
         }
         let got = run(&parser, &argv);
+        // the same definition with every choice spelled `bpaf::choice([..])`, documented as the
+        // run-time form of `construct!([..])`: same outcome, judged by the same oracle below
+        let via_choice = match guarded(|| crate::build::build_level_via_choice(&case.level)) {
+            Ok(p) => run(&p, &argv),
+            Err((at, msg)) => Outcome::Panic { at, msg },
+        };
         std::env::remove_var(C07_ENV);
-        ctx.eval(1);
+        ctx.eval(2);
         if let Outcome::Panic { at, msg } = &got {
             return Verdict::fail(format!("panic@{}", at), msg.clone());
+        }
+        if via_choice != got {
+            return Verdict::fail(
+                format!("choice()-differs-from-construct/{}", case.scenario),
+                format!(
+                    "{:?}: construct!([..]) gives {} but choice([..]) gives {}",
+                    show_argv(&argv),
+                    got.short(),
+                    via_choice.short()
+                ),
+            );
         }
         ctx.class(&format!("scenario:{}", case.scenario));
         ctx.class(&format!("wrap:{:?}", case.wrap));
